@@ -485,14 +485,14 @@ def run(chk):
     chk.cov["model_check_protocol"] = {"distinct_states": m.distinct}
     traces, back = [], []
     shapes = [(["X.qml"], None), (["./X.qml"], None), (["d/X.qml"], None), (["d/./e/X.qml"], None), (["d/../X.qml"], None), (["ABS"], None), (["link/X.qml"], None),
-              (["MixedCase.qml"], None), (["Dir/MixedCase.qml"], None), (["X.qml", "d/Y.qml"], None),
+              (["MixedCase.qml"], None), (["Dir/MixedCase.qml"], None), (["X.qml", "d/Y.qml"], None), (["Gui_Prefs.qml"], None), (["Ui_Panel.qml", "uisupport_x/Ui_ui_.qml"], "out"),
               (["X.qml"], "out"), (["Dir/MixedCase.qml"], "Out/Gen"), (["X.qml", "d/Y.qml"], "out"), (["ABS"], "out"), (["../X.qml"], "out"), (["d/../X.qml"], "out"),
               (["./X.qml"], "out"), (["d/X.qml"], "out"), (["d/./e/X.qml"], "out/deep"), (["link/X.qml"], "out"),
               (["Dir/MixedCase.qml"], "out"), (["d/X.qml"], "ABSOUT"), (["d/X.qml"], "d"), (["X.qml"], "."), (["X.qml", "ABS"], "out"), (["Dir/A.qml", "dir/A.qml"], None)]
     if quick:
-        shapes = shapes[:16] + r.sample(shapes[16:], 3)
+        shapes = shapes[:18] + r.sample(shapes[18:], 3)
     for si, (srcs, outdir) in enumerate(shapes):
-        for lowercase in ((True, False) if any("Mixed" in s for s in srcs) or not quick else (True,)):
+        for lowercase in ((True, False) if any("Mixed" in s or "i_" in s for s in srcs) or not quick else (True,)):
             for dynamic in ((True, False) if si % 4 == 0 or not quick else (True,)):
                 history(chk, qmluic, srcs, outdir, lowercase, dynamic, traces, back)
     kill_points(chk, qmluic, traces, back, quick)
